@@ -135,6 +135,16 @@ TTick ==
   /\ TickFails(Ev) = {}
   /\ l' = l + 1 /\ UNCHANGED tid
 
+\* the last record: a new engine built from the published composite and the
+\* variables-only state, run alongside the original, stays identical to it
+TRebuild ==
+  /\ Normal /\ Ev.ev = "rebuild" /\ Ev.same /\ Ev.exc = ""
+  /\ l' = l + 1 /\ UNCHANGED <<vars, tid>>
+DiagnoseRebuild ==
+  /\ More /\ DiagL[tid] = l /\ Ev.ev = "rebuild"
+  /\ PrintT(<<"DIAG", tid, l, "rebuild", {"rebuild"}>>)
+  /\ l' = Len(Tr) + 2 /\ UNCHANGED <<vars, tid>>
+
 \* the first record is checked against the constructed engine
 TFirst ==
   /\ l = 2 /\ InitFails(Traces[tid][1]) # {}
@@ -151,7 +161,7 @@ Diagnose ==
         /\ UNCHANGED vars
   /\ l' = Len(Tr) + 2 /\ UNCHANGED tid
 
-TNext == (InitFails(Traces[tid][1]) = {} /\ (TTick \/ Diagnose)) \/ TFirst
+TNext == (InitFails(Traces[tid][1]) = {} /\ (TTick \/ Diagnose \/ TRebuild \/ DiagnoseRebuild)) \/ TFirst
 Mark == TLCSet(2, [TLCGet(2) EXCEPT ![tid] = IF @ < l THEN (IF l > Len(Traces[tid]) + 2 THEN 1 ELSE l) ELSE @])
 Post ==
   LET prog == TLCGet(2)
